@@ -973,6 +973,13 @@ static inline bool tick()
    return g_stop;
 }
 
+// deadline check on every n-th call (independent of the loop index, which is correlated with the shard number)
+static inline bool tick_every( const unsigned n )
+{
+   static unsigned long calls = 0;
+   return ( ++calls % n == 0 ) ? tick() : g_stop;
+}
+
 // all strings of length len over an alphabet; calls f( bytes ) for the shard's share
 template< typename Fn >
 static void for_strings( const std::vector< u8 >& alphabet, const unsigned len, Fn&& fn )
@@ -1142,11 +1149,9 @@ static void sweep_ascii()
 
 // ---------------- B: UTF-8 ----------------
 
-static void sweep_utf8( const bool thorough )
+static void sweep_utf8_base()
 {
    const auto& full = g_unit_rules[ "utf8" ];
-   const auto& cor = g_core_rules[ "utf8" ];
-   const std::vector< const Entry* > any_only = { g_by_name.at( "utf8::any" ) };
    u8 b[ 8 ];
    // all sequences of length 0..3
    section_quota( 400000 );
@@ -1171,7 +1176,7 @@ static void sweep_utf8( const bool thorough )
          p[ 2 ] = u8( b2 );
          eval_placed( full, 3 );
       }
-      if( ( hi & 0xFF ) == 0 && tick() ) return;
+      if( tick_every( 16 ) ) return;
    }
    vf::count( "utf8.len0to3_all_sequences_done", 1 );
    // structured 4- and 5-byte inputs, full battery: every lead byte x boundary continuation bytes
@@ -1193,7 +1198,14 @@ static void sweep_utf8( const bool thorough )
             }
       if( tick() ) return;
    }
-   // wide 4-byte domain, core battery
+   sweep_string_rules( "utf8" );
+}
+
+// wide 4-byte domain, core battery (runs after the base domains of all families)
+static void sweep_utf8_wide( const bool thorough )
+{
+   const auto& cor = g_core_rules[ "utf8" ];
+   const std::vector< const Entry* > any_only = { g_by_name.at( "utf8::any" ) };
    section_quota( 400000 );
    for( unsigned hi = 0; hi < 65536; ++hi ) {
       if( !mine_outer( hi ) ) continue;
@@ -1226,18 +1238,16 @@ static void sweep_utf8( const bool thorough )
                eval_placed( cor, 4 );
             }
       }
-      if( ( hi & 0x3F ) == 0 && tick() ) return;
+      if( tick_every( 16 ) ) return;
    }
    vf::count( thorough ? "utf8.all_2^32_four_byte_inputs_done" : "utf8.quick_four_byte_domain_done", 1 );
-   sweep_string_rules( "utf8" );
 }
 
 // ---------------- C: UTF-16 ----------------
 
-static void sweep_utf16( const char* fam, const bool be, const bool thorough )
+static void sweep_utf16_base( const char* fam, const bool be, const bool thorough )
 {
    const auto& full = g_unit_rules[ fam ];
-   const auto& cor = g_core_rules[ fam ];
    u8 b[ 8 ];
    section_quota( 300000 );
    if( mine() ) eval( full, b, 0 );
@@ -1260,7 +1270,7 @@ static void sweep_utf16( const char* fam, const bool be, const bool thorough )
          put_unit( b + 2, w2, 2, be );
          eval( full, b, 4 );
       }
-      if( ( w1 & 0xFFF ) == 0 && tick() ) return;
+      if( tick_every( 16 ) ) return;
    }
    // three boundary units (6 bytes): the rule must consume exactly one code point
    for( const unsigned w1 : B_U16UNIT )
@@ -1273,7 +1283,13 @@ static void sweep_utf16( const char* fam, const bool be, const bool thorough )
             eval( full, b, 6 );
             eval( full, b, 5 );
          }
-   // wide domain, core battery: quick = every surrogate first unit x all second units; thorough = all pairs
+   sweep_string_rules( fam );
+}
+
+// wide domain, core battery: quick = every surrogate first unit x all second units; thorough = all pairs
+static void sweep_utf16_wide( const char* fam, const bool be, const bool thorough )
+{
+   const auto& cor = g_core_rules[ fam ];
    section_quota( 300000 );
    for( unsigned w1 = 0; w1 < 65536; ++w1 ) {
       if( !mine_outer( w1 ) ) continue;
@@ -1284,18 +1300,16 @@ static void sweep_utf16( const char* fam, const bool be, const bool thorough )
          put_unit( p + 2, w2, 2, be );
          eval_placed( cor, 4 );
       }
-      if( ( w1 & 0x3F ) == 0 && tick() ) return;
+      if( tick_every( 16 ) ) return;
    }
    vf::count( ( std::string( fam ) + ( thorough ? ".all_2^32_unit_pairs_done" : ".all_surrogate_first_units_x_all_second_units_done" ) ).c_str(), 1 );
-   sweep_string_rules( fam );
 }
 
 // ---------------- D: UTF-32 ----------------
 
-static void sweep_utf32( const char* fam, const bool be, const bool thorough )
+static void sweep_utf32_base( const char* fam, const bool be )
 {
    const auto& full = g_unit_rules[ fam ];
-   const auto& cor = g_core_rules[ fam ];
    section_quota( 300000 );
    for( unsigned len = 0; len <= 5; ++len ) {
       for_strings( B_U32BYTE, len, [ & ]( const u8* s ) { eval( full, s, len ); } );
@@ -1306,35 +1320,38 @@ static void sweep_utf32( const char* fam, const bool be, const bool thorough )
       if( !mine() ) continue;
       put_unit( b, v, 4, be );
       eval( full, b, 4 );
-      if( ( v & 0xFFFF ) == 0 && tick() ) return;
+      if( tick_every( 16 ) ) return;
    }
    for( unsigned long v = 0xFFFFFF00ul; v <= 0xFFFFFFFFul; ++v ) {
       if( !mine() ) continue;
       put_unit( b, v, 4, be );
       eval( full, b, 4 );
    }
-   if( thorough ) {
-      section_quota( 300000 );
-      for( unsigned hi = 0; hi < 65536; ++hi ) {
-         if( !mine_outer( hi ) ) continue;
-         u8* p = slot( 4 );
-         for( unsigned lo = 0; lo < 65536; ++lo ) {
-            put_unit( p, ( uint64_t( hi ) << 16 ) | lo, 4, be );
-            eval_placed( cor, 4 );
-         }
-         if( ( hi & 0x3F ) == 0 && tick() ) return;
-      }
-      vf::count( ( std::string( fam ) + ".all_2^32_values_done" ).c_str(), 1 );
-   }
    sweep_string_rules( fam );
+}
+
+// thorough only: all 2^32 values of a 4-byte unit (utf32 and uint32 families), core battery
+static void sweep_all_32bit_values( const char* fam, const bool be )
+{
+   const auto& cor = g_core_rules[ fam ];
+   section_quota( 300000 );
+   for( unsigned hi = 0; hi < 65536; ++hi ) {
+      if( !mine_outer( hi ) ) continue;
+      u8* p = slot( 4 );
+      for( unsigned lo = 0; lo < 65536; ++lo ) {
+         put_unit( p, ( uint64_t( hi ) << 16 ) | lo, 4, be );
+         eval_placed( cor, 4 );
+      }
+      if( tick_every( 16 ) ) return;
+   }
+   vf::count( ( std::string( fam ) + ".all_2^32_values_done" ).c_str(), 1 );
 }
 
 // ---------------- E: binary rules ----------------
 
-static void sweep_uint( const char* fam, const unsigned width, const bool be, const bool thorough )
+static void sweep_uint( const char* fam, const unsigned width, const bool be )
 {
    const auto& full = g_unit_rules[ fam ];
-   const auto& cor = g_core_rules[ fam ];
    section_quota( 150000 );
    u8 b[ 16 ];
    if( width <= 2 ) {
@@ -1373,19 +1390,6 @@ static void sweep_uint( const char* fam, const unsigned width, const bool be, co
       } );
    }
    if( tick() ) return;
-   if( thorough && width == 4 ) {
-      section_quota( 150000 );
-      for( unsigned hi = 0; hi < 65536; ++hi ) {
-         if( !mine_outer( hi ) ) continue;
-         u8* p = slot( 4 );
-         for( unsigned lo = 0; lo < 65536; ++lo ) {
-            put_unit( p, ( uint64_t( hi ) << 16 ) | lo, 4, be );
-            eval_placed( cor, 4 );
-         }
-         if( ( hi & 0x3F ) == 0 && tick() ) return;
-      }
-      vf::count( ( std::string( fam ) + ".all_2^32_values_done" ).c_str(), 1 );
-   }
    sweep_string_rules( fam );
 }
 
@@ -1434,19 +1438,30 @@ int main( int argc, char** argv )
    sample_case( "uint16_le::mask_range<0xA55A,0x100,0xA45A>", std::string( "\x5A\xA4", 2 ) );
    sample_case( "ascii::istring<'@', '['>", "`{" );
 
+   // phase 1: the boundary structured / full battery domains of every family (what both tiers share)
    sweep_ascii();
-   if( !g_stop ) sweep_utf8( thorough );
-   if( !g_stop ) sweep_utf16( "utf16_be", true, thorough );
-   if( !g_stop ) sweep_utf16( "utf16_le", false, thorough );
-   if( !g_stop ) sweep_utf32( "utf32_be", true, thorough );
-   if( !g_stop ) sweep_utf32( "utf32_le", false, thorough );
-   if( !g_stop ) sweep_uint( "uint8", 1, true, thorough );
-   if( !g_stop ) sweep_uint( "uint16_be", 2, true, thorough );
-   if( !g_stop ) sweep_uint( "uint16_le", 2, false, thorough );
-   if( !g_stop ) sweep_uint( "uint32_be", 4, true, thorough );
-   if( !g_stop ) sweep_uint( "uint32_le", 4, false, thorough );
-   if( !g_stop ) sweep_uint( "uint64_be", 8, true, thorough );
-   if( !g_stop ) sweep_uint( "uint64_le", 8, false, thorough );
+   if( !g_stop ) sweep_utf8_base();
+   if( !g_stop ) sweep_utf16_base( "utf16_be", true, thorough );
+   if( !g_stop ) sweep_utf16_base( "utf16_le", false, thorough );
+   if( !g_stop ) sweep_utf32_base( "utf32_be", true );
+   if( !g_stop ) sweep_utf32_base( "utf32_le", false );
+   if( !g_stop ) sweep_uint( "uint8", 1, true );
+   if( !g_stop ) sweep_uint( "uint16_be", 2, true );
+   if( !g_stop ) sweep_uint( "uint16_le", 2, false );
+   if( !g_stop ) sweep_uint( "uint32_be", 4, true );
+   if( !g_stop ) sweep_uint( "uint32_le", 4, false );
+   if( !g_stop ) sweep_uint( "uint64_be", 8, true );
+   if( !g_stop ) sweep_uint( "uint64_le", 8, false );
+   // phase 2: the wide domains (a deadline can only cut into these)
+   if( !g_stop ) sweep_utf8_wide( thorough );
+   if( !g_stop ) sweep_utf16_wide( "utf16_be", true, thorough );
+   if( !g_stop ) sweep_utf16_wide( "utf16_le", false, thorough );
+   if( thorough ) {
+      if( !g_stop ) sweep_all_32bit_values( "utf32_be", true );
+      if( !g_stop ) sweep_all_32bit_values( "utf32_le", false );
+      if( !g_stop ) sweep_all_32bit_values( "uint32_be", true );
+      if( !g_stop ) sweep_all_32bit_values( "uint32_le", false );
+   }
 
    vf::count( "rules_registered", long( g_rules.size() ) );
    std::map< std::string, const Fam* > fams;
